@@ -744,12 +744,36 @@ make_fn!(
     either!(reduce_expression, map_expression, filter_expression)
 );
 
-make_fn!(
-    range_expression<SliceIter<Token>, Expression>,
-    do_each!(
-        pos => pos,
-        start => either!(simple_expression, grouped_expression),
-        _ => punct!(":"),
+fn range_expression(input: SliceIter<Token>) -> ParseResult<Expression> {
+    let pos = match pos(input.clone()) {
+        Result::Complete(_, pos) => pos,
+        Result::Fail(e) => return Result::Fail(e),
+        Result::Abort(e) => return Result::Abort(e),
+        Result::Incomplete(i) => return Result::Incomplete(i),
+    };
+    let (rest, start) = match either!(input.clone(), simple_expression, grouped_expression) {
+        Result::Complete(rest, start) => (rest, start),
+        Result::Fail(e) => return Result::Fail(e),
+        Result::Abort(e) => return Result::Abort(e),
+        Result::Incomplete(i) => return Result::Incomplete(i),
+    };
+    let rest = match punct!(rest.clone(), ":") {
+        Result::Complete(after_colon, _) => after_colon,
+        Result::Fail(e) => {
+            // Not a range. A grouped or compound start would be parsed again
+            // with the same result by the alternatives that follow this rule,
+            // so hand it back instead of discarding it.
+            return match start {
+                Expression::Grouped(_, _)
+                | Expression::Simple(Value::List(_))
+                | Expression::Simple(Value::Tuple(_)) => Result::Complete(rest, start),
+                _ => Result::Fail(e),
+            };
+        }
+        Result::Abort(e) => return Result::Abort(e),
+        Result::Incomplete(i) => return Result::Incomplete(i),
+    };
+    do_each!(rest,
         maybe_step => optional!(
             do_each!(
                 step => either!(simple_expression, grouped_expression),
@@ -759,13 +783,13 @@ make_fn!(
         ),
         end => must!(wrap_err!(either!(simple_expression, grouped_expression), "Expected simple or grouped expression")),
         (Expression::Range(RangeDef{
-            pos,
-            start: Box::new(start),
+            pos: pos.clone(),
+            start: Box::new(start.clone()),
             step: maybe_step,
             end: Box::new(end),
         }))
     )
-);
+}
 
 make_fn!(
     import_expression<SliceIter<Token>, Expression>,
